@@ -204,9 +204,18 @@ tolerance_factor=region.tolerance_factor)` -/
 def rebuildSub (r : TReg) (p : String × TReg) : M (String × TReg) :=
   (TReg.init p.2.pmin p.2.pmax (some r.dims) (some r.units) r.tol).bind fun s => .ok (p.1, s)
 
+/-- one candidate of the `subregions` setter (repo fix 5591fed0, D132): a candidate of the mesh's
+dimension is first rebuilt with the mesh region's names, units and tolerance factor — what is going
+to be stored — and the three tests are made on THAT copy (the candidate's own tolerance factor has
+no say); a candidate of another dimension is tested as it is (and fails the containment test) -/
+def candOk (r : TReg) (n : List Nat) (s : TReg) : Bool :=
+  match (if s.ndim = r.ndim then TReg.init s.pmin s.pmax (some r.dims) (some r.units) r.tol else .ok s) with
+  | .error _ => false
+  | .ok v => subAccept r.toRegion n v.toRegion
+
 /-- `Mesh.subregions` setter -/
 def setSubs (r : TReg) (n : List Nat) (subs : List (String × TReg)) : M (List (String × TReg)) :=
-  if !subs.all (fun p => subAccept r.toRegion n p.2.toRegion) then .error .value
+  if !subs.all (fun p => candOk r n p.2) then .error .value
   else mapE (rebuildSub r) subs
 
 /-- `Mesh(region=…, n=…, bc=…, subregions=…)` -/
@@ -706,7 +715,9 @@ def TReg.sameValues (a b : TReg) : Prop :=
   a.pmin.vals = b.pmin.vals ∧ a.pmax.vals = b.pmax.vals ∧ a.dims = b.dims ∧ a.units = b.units ∧ a.tol = b.tol
 
 /-! ## Invariants of states built by the constructors (decidable: the harness evaluates
-them on the states of real fields, the theorems take them as hypotheses) -/
+them on the states of real fields, the theorems take them as hypotheses).  `Inv` includes that
+every stored subregion passes the setter's three tests as it is stored (with the mesh's names,
+units and tolerance factor): what the setter guarantees since repo fix 5591fed0. -/
 
 /-- what `Region.__init__` guarantees -/
 def TReg.invB (r : TReg) : Bool :=
@@ -723,13 +734,12 @@ def plainRegion (pmin pmax : List Rat) : Region :=
     units := List.replicate pmin.length "m", tol := TReg.defaultTol.val }
 
 /-- one subregion of a mesh: rebuilt by the setter with the region's names / units /
-tolerance, corners ordered, and accepted by the setter's three tests when presented as a
-plain corner pair -/
+tolerance, corners ordered, and — as it is stored — accepted by the setter's three tests -/
 def subInvB (r : TReg) (n : List Nat) (s : TReg) : Bool :=
   decide (s.pmin.length = r.ndim) && decide (s.pmax.length = r.ndim) && decide (s.pmin.kind = s.pmax.kind) &&
   decide (s.dims = r.dims) && decide (s.units = r.units) && decide (s.tol = r.tol) &&
   (allLt r.ndim fun a => decide (s.pmin.vals.getD a 0 < s.pmax.vals.getD a 0)) &&
-  subAccept r.toRegion n (plainRegion s.pmin.vals s.pmax.vals)
+  subAccept r.toRegion n s.toRegion
 
 /-- what `Mesh.__init__` guarantees (counts positive, bc lower-cased and checked, distinct
 subregion names, every subregion as above) -/
@@ -751,5 +761,41 @@ def TFld.invB (f : TFld) : Bool :=
    | some l => !l.isEmpty && decide (l.length = f.nvdim) && !hasDup l)
 
 def TFld.Inv (f : TFld) : Prop := f.invB = true
+
+/-! ### the weak invariant: `Inv` without the acceptance clause
+
+Before repo fix 5591fed0 (D132) the `subregions` setter tested a candidate with the candidate's
+OWN tolerance factor and stored it with the mesh's: a stored subregion did not necessarily pass the
+tests, and the HDF5 reader could refuse the file the writer wrote.  Since the fix the tests are made
+on the copy that is stored, `Inv` holds for every mesh the constructor returns
+(`mesh_constructor_inv`).  `invWB` is `invB` without the acceptance clause; it is kept to state for
+ARBITRARY states when the reader accepts the writer's file (`h5_reread_accepts_iff`). -/
+
+def subInvWB (r : TReg) (s : TReg) : Bool :=
+  decide (s.pmin.length = r.ndim) && decide (s.pmax.length = r.ndim) && decide (s.pmin.kind = s.pmax.kind) &&
+  decide (s.dims = r.dims) && decide (s.units = r.units) && decide (s.tol = r.tol) &&
+  (allLt r.ndim fun a => decide (s.pmin.vals.getD a 0 < s.pmax.vals.getD a 0))
+
+def TMesh.invWB (m : TMesh) : Bool :=
+  m.region.invB && decide (m.n.length = m.region.ndim) && m.n.all (fun k => decide (0 < k)) &&
+  decide (m.bc.toLower = m.bc) && Mesh.bcOk m.region.dims m.bc &&
+  !hasDup (m.subs.map fun p => p.1) && m.subs.all fun p => subInvWB m.region p.2
+
+def TMesh.InvW (m : TMesh) : Prop := m.invWB = true
+
+def TFld.invWB (f : TFld) : Bool :=
+  f.mesh.invWB && decide (1 ≤ f.nvdim) &&
+  decide (f.data.shape = f.mesh.n ++ [f.nvdim]) && decide (f.data.buf.length = natProd (f.mesh.n ++ [f.nvdim])) &&
+  decide (f.valid.shape = f.mesh.n) && decide (f.valid.buf.length = natProd f.mesh.n) &&
+  (match f.vdims with
+   | none => true
+   | some l => !l.isEmpty && decide (l.length = f.nvdim) && !hasDup l)
+
+def TFld.InvW (f : TFld) : Prop := f.invWB = true
+
+/-- every stored subregion passes the setter's three tests (so the HDF5 reader, which presents the
+stored corner pairs to the setter again, accepts them) -/
+def TMesh.rereadableB (m : TMesh) : Bool :=
+  m.subs.all fun p => subAccept m.region.toRegion m.n p.2.toRegion
 
 end DFV.C10
